@@ -594,6 +594,27 @@ def shard_programs(spec: Dict[str, Any], journal: Any) -> Dict[str, Any]:
                                       f'{next((i for i, (a, b) in enumerate(zip(got, model.frames)) if a != b), None)}')
             elif screen.pixel_indices != model.pixels or list(screen.palette) != list(model.palette):
                 bad('pixels-or-palette', 'final pixels/palette differ')
+        # the complete headless 'pc' device (scripted keyboard + screen writing PNG frames) must present the same frames
+        try:
+            from flipjump.interpreter.io_devices.pygame_window import PcIO
+
+            frames_dir = engines.tmpdir() / f'frames{index}'
+            events = engines.tmpdir() / 'events.txt'
+            events.write_text('# no key events\n3, down, 65\n')
+            pc = PcIO.headless(events, frames_dir)
+            obs = engines.run_engine(path, {'engine': rng.choice(['native', 'fast'])}, pc)
+            counters['pcio_headless_runs'] = counters.get('pcio_headless_runs', 0) + 1
+            got = [h for _, h in pc._screen.frame_hashes]
+            pngs = sorted(frames_dir.glob('frame_*.png')) if frames_dir.exists() else []
+            if obs['cause'] != 'looping' or got != model.frames or len(pngs) != len(model.frames):
+                violations.append({'key': 'screen-program/pcio-headless/frame-sequence',
+                                   'what': f'PcIO.headless: cause {obs["cause"]}, {len(got)} frames / {len(pngs)} png files, model {len(model.frames)}',
+                                   'replay': {'kind': 'program', 'case': case}})
+            elif pngs and pngs[0].read_bytes()[:8] != b'\x89PNG\r\n\x1a\n':
+                violations.append({'key': 'screen-program/pcio-headless/png-signature', 'what': 'frame file is not a PNG',
+                                   'replay': {'kind': 'program', 'case': case}})
+        except ImportError:
+            counters['pcio_headless_unavailable'] = counters.get('pcio_headless_unavailable', 0) + 1
         if model.frames:
             hashes.append(case_hash(case))
         if len(samples) < 1:
